@@ -114,6 +114,33 @@ if _fault:
             raise SystemExit(0)
         raise ValueError("injected fault")
 
+    def _run_faulty(_call):
+        """the chosen task: either it fails outright (_boom), or -- kind ioerr-<ERRNO> -- every chunk write it attempts fails with
+        that OSError for as long as the task runs (a worker that cannot write its output: stale handle, I/O error, disk full)"""
+        if not _kind.startswith("ioerr-"):
+            _boom()
+            return _call()
+        import errno as _errno
+
+        import zarr.storage as _zs
+
+        _mark = os.environ.get("VERIF_FAULT_MARK")
+        _code = getattr(_errno, _kind[len("ioerr-"):])
+        _real = _zs.DirectoryStore.__setitem__
+
+        def _fail(self, key, value, _real=_real):
+            if str(key).rsplit("/", 1)[-1].startswith("."):
+                return _real(self, key, value)          # array metadata (.zarray / .zattrs): the fault is about chunk data
+            if _mark:
+                open(_mark, "w").close()
+            raise OSError(_code, os.strerror(_code), str(key))
+
+        _zs.DirectoryStore.__setitem__ = _fail
+        try:
+            return _call()
+        finally:
+            _zs.DirectoryStore.__setitem__ = _real
+
     try:
         if _what == "explode":
             from bio2zarr.vcf2zarr import icf as _m
@@ -135,7 +162,7 @@ if _fault:
             @functools.wraps(_orig)
             def _ep(self, partition_index, _orig=_orig):
                 if partition_index == _idx:
-                    _boom()
+                    return _run_faulty(lambda: _orig(self, partition_index))
                 return _orig(self, partition_index)
 
             _m.VcfZarrWriter.encode_partition = _ep
@@ -147,7 +174,7 @@ if _fault:
             @functools.wraps(_orig)
             def _eg(bed_path, zarr_path, start, stop, _orig=_orig):
                 if start == _idx:
-                    _boom()
+                    return _run_faulty(lambda: _orig(bed_path, zarr_path, start, stop))
                 return _orig(bed_path, zarr_path, start, stop)
 
             _m.encode_genotypes_slice = _eg
